@@ -224,21 +224,23 @@ theorem getLoop_canonical (amount : Number) (name : String) (props : List (Strin
     have hx := hp (k, p) (by simp)
     simp only [Substance.getLoop] at h
     split at h
-    · cases hd : Number.div p.input amount with
-      | ok input =>
+    · cases hd : Number.div amount p.input with
+      | ok ratio =>
         simp only [hd] at h
         split at h
-        · exact div_canonical _ _ _ hx.2 (div_canonical _ _ _ hx.1 ha hd) h
+        · cases h
+          exact Dim.mul_canonical _ _ hx.2 (div_canonical _ _ _ ha hx.1 hd)
         · cases h
       | err c => simp [hd] at h
       | panic s => simp [hd] at h
       | unsupported s => simp [hd] at h
     · split at h
-      · cases hd : Number.div p.output amount with
-        | ok output =>
+      · cases hd : Number.div amount p.output with
+        | ok ratio =>
           simp only [hd] at h
           split at h
-          · exact div_canonical _ _ _ hx.1 (div_canonical _ _ _ hx.2 ha hd) h
+          · cases h
+            exact Dim.mul_canonical _ _ hx.1 (div_canonical _ _ _ ha hx.2 hd)
           · cases h
         | err c => simp [hd] at h
         | panic s => simp [hd] at h
